@@ -23,7 +23,7 @@ ASSUMPTIONS = [
     'relative targets outside GLOBAL are not asserted (the property does not say whether the target must be an address)',
     'min/max keys of an indirect-register offset are not a listed constraint and are not generated',
 ]
-BUDGET = {'quick': 4000, 'thorough': 200000}
+BUDGET = {'quick': 4000, 'thorough': 400000}
 LEVEL_TEXT = ('Exploration focused on boundaries: every generated configuration is probed exactly at and next to each '
               'of its own boundaries, which is where constraint enforcement can silently fail; the oracle is an '
               'independent statement of each constraint. Dense boundary sampling over generated configurations is '
